@@ -179,6 +179,8 @@ func (f *Frame) clone() *Frame {
 type loopEntry struct {
 	header  *ssa.BasicBlock
 	depth   int // frame depth the loop belongs to (0: the function under verification)
+	ghost   map[string]Term // ghost call/once/atomic/channel arrays at the loop head (contracts silent about them)
+	gepoch  int
 	decInit Term
 	hasDec  bool
 	oldHeap map[string]Term
